@@ -12,9 +12,9 @@ git -C /repo worktree add -q --detach "$WT" HEAD || exit 2
 cd "$WT"
 res() { echo "SEED $NAME: $*"; }
 cleanup() { cd /; git -C /repo worktree remove --force "$WT" 2>/dev/null; rm -rf "$WT"; }
-cp "$SRC/demo_test.go" src/app/zz_demo_test.go
-if go test -vet=off -count=1 -run 'TestSeedDemo' ./src/app/ > /tmp/sw/$NAME.demo0.out 2>&1; then D0=pass; else D0=fail; fi
-rm -f src/app/zz_demo_test.go
+PKG=$(grep -m1 "^package " "$SRC/demo_test.go" | awk "{print \$2}" | sed "s/_test$//"); DDIR=src/$PKG; [ -d "$DDIR" ] || DDIR=src/app; cp "$SRC/demo_test.go" $DDIR/zz_demo_test.go
+if go test -vet=off -count=1 -run TestSeedDemo ./$DDIR/ > /tmp/sw/$NAME.demo0.out 2>&1; then D0=pass; else D0=fail; fi
+rm -f $DDIR/zz_demo_test.go
 if ! git apply "$SRC/patch.diff" 2>/dev/null; then
   if ! git apply --3way "$SRC/patch.diff" 2>/tmp/sw/$NAME.apply.err; then res "patch does not apply (demo-without=$D0)"; cleanup; exit 3; fi
   git reset -q
@@ -22,9 +22,9 @@ fi
 if ! go build ./... 2>/tmp/sw/$NAME.build.err || ! go build -tags verif ./src/... 2>>/tmp/sw/$NAME.build.err; then res "does not build"; cleanup; exit 3; fi
 git diff > /tmp/sw/$NAME.patch
 if go test -vet=off -count=1 -timeout 25m ./... > /tmp/sw/$NAME.suite.out 2>&1; then SUITE=pass; else SUITE=fail; fi
-cp "$SRC/demo_test.go" src/app/zz_demo_test.go
-if go test -vet=off -count=1 -run 'TestSeedDemo' ./src/app/ > /tmp/sw/$NAME.demo1.out 2>&1; then D1=pass; else D1=fail; fi
-rm -f src/app/zz_demo_test.go
+PKG=$(grep -m1 "^package " "$SRC/demo_test.go" | awk "{print \$2}" | sed "s/_test$//"); DDIR=src/$PKG; [ -d "$DDIR" ] || DDIR=src/app; cp "$SRC/demo_test.go" $DDIR/zz_demo_test.go
+if go test -vet=off -count=1 -run TestSeedDemo ./$DDIR/ > /tmp/sw/$NAME.demo1.out 2>&1; then D1=pass; else D1=fail; fi
+rm -f $DDIR/zz_demo_test.go
 res "demo-without=$D0 suite-with=$SUITE demo-with=$D1"
 if [ "$D0" = pass ] && [ "$SUITE" = pass ] && [ "$D1" = fail ]; then
   mkdir -p /verif/seeded/$NAME
